@@ -79,6 +79,18 @@ def gen_C01(rng, ci, tier):
         s.add("parse", e, b)
         s.add("len", SD(0))
         out.append(s.ops)
+    # characters above U+00FF whose low byte is a symbol character (must not be accepted as it)
+    for e in range(4):
+        s = Script(ci)
+        for v in valid[:4]:
+            cp = 0x100 + v
+            enc = list(chr(cp).encode("utf-8"))
+            pre = [rng.choice(valid) for _ in range(2)]
+            s.add("parse", e, enc + pre)
+            s.add("len", SD(len(s.regs))); s.regs.append(None)
+            s.add("parse", e, pre + enc)
+            s.regs.append(None)
+        out.append(s.ops)
     # multi-byte UTF-8 through the &str forms
     for e in range(4):
         s = Script(ci)
@@ -531,6 +543,53 @@ def gen_C04(rng, ci, tier):
             s.add("tomask", made[0]); s.regs.append(None); made.append(len(s.regs) - 1)
         for r in made:
             s.add("intoraw", r)
+        out.append(s.ops)
+    # the image after every single kind of edit (the edit itself must leave the content at bit 0)
+    for it in range(scale(tier, 120, 2400)):
+        s = Script(ci)
+        n = pick_len(rng, ci, scale(tier, 150, 300))
+        codes = rand_codes(rng, ci, n)
+        e = s.new_from_codes(rng, codes, how=rng.choice(["parse", "collect", "window"]))
+        d2 = s.embed(rng, rand_codes(rng, ci, rng.randint(0, 40)))
+        a = rng.choice([0, 0, rng.randint(0, n)])
+        b = rng.randint(a, n)
+        which = rng.choice(["remove_prefix", "remove_prefix", "remove", "remove_suffix", "truncate", "insert",
+                            "append", "prepend", "push", "extend", "clear_push", "clone", "rev", "two"])
+        if which == "remove_prefix":
+            b = rng.choice([1, 2, 3, ci.per_word - 1, ci.per_word, ci.per_word + 1, rng.randint(0, n)])
+            b = min(b, n)
+            form = rng.choice([0, 2]) if b > 0 else 0
+            s.add("remove", e, form, 0, b)
+            if b > 0 and rng.random() < 0.3:
+                pass
+        elif which == "remove":
+            s.add("remove", e, 0, a, b)
+        elif which == "remove_suffix":
+            s.add("remove", e, 4, a, 0)
+        elif which == "truncate":
+            s.add("truncate", e, a)
+        elif which == "insert":
+            s.add("insert", e, a, d2)
+        elif which == "append":
+            s.add("append", e, d2)
+        elif which == "prepend":
+            s.add("prepend", e, d2)
+        elif which == "push":
+            s.add("push", e, rng.choice(ci.items))
+        elif which == "extend":
+            s.add("extend", e, rand_codes(rng, ci, rng.randint(0, 40)))
+        elif which == "clear_push":
+            s.add("clear", e); s.add("push", e, rng.choice(ci.items))
+        elif which == "clone":
+            s.add("clone", e); s.regs.append(None); e = len(s.regs) - 1
+        elif which == "rev":
+            s.add("rev", e)
+        else:
+            s.add("remove", e, 2, 0, min(n, rng.randint(1, 5)))
+            s.add("push", e, rng.choice(ci.items))
+            s.add("clone", e); s.regs.append(None); e = len(s.regs) - 1
+        s.add("intoraw", e)
+        s.add("codes", SD(e))
         out.append(s.ops)
     # rebuilding from an image: all symbol counts 0 .. words*64/BITS + 2 (bounded exhaustive)
     for words in range(0, scale(tier, 3, 4)):
